@@ -373,10 +373,15 @@ func (c *ctx) stateChecks(pw []int64, hist []opT) (out []viol) {
 			}
 			// every other way of getting there: depth-first over jump sequences,
 			// each node one Copy+IncrementAccum from its parent
-			r2failed := false
+			type r2bad struct {
+				path        []int64
+				df          string
+				ref, gotObs slotObs
+			}
+			worst := map[string]*r2bad{} // per kind of difference, the shortest jump sequence
 			var dfs func(v *types.ValidatorSet, sum int, path []int64, allOnes bool)
 			dfs = func(v *types.ValidatorSet, sum int, path []int64, allOnes bool) {
-				for d := 1; sum+d <= c.maxRound && !r2failed; d++ {
+				for d := 1; sum+d <= c.maxRound; d++ {
 					ones := allOnes && d == 1
 					nv, okn := walkRounds(v, []int64{int64(d)})
 					if !okn || !refOK[sum+d] {
@@ -389,26 +394,34 @@ func (c *ctx) stateChecks(pw []int64, hist []opT) (out []viol) {
 						gotObs := observe(nv, false)
 						if df := diffObs(refs[sum+d], gotObs); df != "" {
 							atomic.AddInt64(&c.nR2fail, 1)
-							if len(hist) == 0 {
-								atomic.AddInt64(&c.r2FreshFail, 1)
+							w := worst[df]
+							if w == nil || sum+d < sumOf(w.path) || (sum+d == sumOf(w.path) && len(p2) < len(w.path)) {
+								worst[df] = &r2bad{p2, df, refs[sum+d], gotObs}
 							}
-							c.classes.Add("R2:batched-differs/" + df)
-							k := kase
-							k.Check, k.Slot, k.Path = "R2", u, p2
-							from := readMembers(base)
-							refObs, r := refs[sum+d], sum+d
-							out = append(out, viol{map[string]string{"site": "ValidatorSet.IncrementAccum", "kind": "batched-differs-from-sequential", "differs": df}, k,
-								func() string {
-									return fmt.Sprintf("%v after %s: from %s with members %v, a replica that enters every round up to round +%d gets %v; a replica that jumps by %v (Copy+IncrementAccum per jump, as enterNewRound does) gets %v", pw, histString(hist), slotName(k.Slot), from, r, refObs, k.Path, gotObs)
-								}})
-							r2failed = true
-							return
 						}
 					}
 					dfs(nv, sum+d, p2, ones)
 				}
 			}
 			dfs(base, 0, nil, true)
+			r2failed := len(worst) > 0
+			if r2failed && len(hist) == 0 {
+				atomic.AddInt64(&c.r2FreshFail, 1)
+			}
+			for _, df := range []string{"members", "powers", "accums", "total", "proposer"} {
+				w := worst[df]
+				if w == nil {
+					continue
+				}
+				c.classes.Add("R2:batched-differs/" + df)
+				k := kase
+				k.Check, k.Slot, k.Path = "R2", u, w.path
+				from := readMembers(base)
+				out = append(out, viol{map[string]string{"site": "ValidatorSet.IncrementAccum", "kind": "batched-differs-from-sequential", "differs": df}, k,
+					func() string {
+						return fmt.Sprintf("%v after %s: from %s with members %v, a replica that enters every round up to round +%d gets %v; a replica that jumps by %v (Copy+IncrementAccum per jump, as enterNewRound does) gets %v", pw, histString(hist), slotName(k.Slot), from, sumOf(w.path), w.ref, w.path, w.gotObs)
+					}})
+			}
 			if !r2failed {
 				c.classes.Add("R2:agree")
 			}
@@ -580,6 +593,14 @@ func (c *ctx) stateChecks(pw []int64, hist []opT) (out []viol) {
 		out = append(out, c.panicViol(pw, hist, stack, pv, " (history or follow-up operations)"))
 	}
 	return
+}
+
+func sumOf(p []int64) int {
+	n := 0
+	for _, x := range p {
+		n += int(x)
+	}
+	return n
 }
 
 func addrOf(v *types.Validator) []byte {
